@@ -1,6 +1,8 @@
 package main
 
 import (
+	"go/types"
+	"regexp"
 	"strings"
 
 	"golang.org/x/tools/go/ssa"
@@ -115,4 +117,100 @@ func (c *Ctx) ckptCopiesAll(prefix string) {
 		c.P.PlainCalls("litefs.(*DB).writeDatabasePage"),
 		"every iteration over the committed page-offset map writes that page into the database file (or returns an error)",
 		"the WAL is truncated afterwards: a page skipped here keeps an older committed version while position and checksum cache move on - snapshots then mix two positions")
+}
+
+// noPrematureTest: in fname no branch condition matching condRe is evaluated
+// unless an edge establishing one of the guards was taken before (the expected
+// number of such conditions is zero today; the independent seed that added one
+// is kept as a mutant).
+func (c *Ctx) noPrematureTest(key, fname, condRe string, guards []*Guard, desc, why string, exclude ...string) {
+	p := c.P
+	rx := regexp.MustCompile(condRe)
+	var ex []*regexp.Regexp
+	for _, e := range exclude {
+		ex = append(ex, regexp.MustCompile(e))
+	}
+	tgt := func(in ssa.Instruction) bool {
+		iff, ok := in.(*ssa.If)
+		if !ok {
+			return false
+		}
+		canon, _ := p.Cond(iff.Cond)
+		for _, e := range ex {
+			if e.MatchString(canon) {
+				return false
+			}
+		}
+		return rx.MatchString(canon)
+	}
+	c.Guarded(key, fname, tgt, guards, 0, desc, why)
+}
+
+// haltLockSetFollowsMode (C11, C13; known finding KF4): the lock set pinned with
+// a granted halt lock is the one of the journal mode at the time of the grant.
+// A forwarded transaction can change the journal mode; the handler that applies
+// it under the pinned lock must look at the mode again (to re-establish or give
+// up the lock set) before it acknowledges. Today nothing does.
+func (c *Ctx) haltLockSetFollowsMode(prefix string) {
+	p := c.P
+	h := "http.(*Server).handlePostTx"
+	apply := p.PlainCalls("litefs.(*DB).ApplyLTXNoLock")
+	reexamine := func(in ssa.Instruction) bool {
+		cc := callCommon(in)
+		if cc == nil {
+			return false
+		}
+		n := p.CalleeName(cc)
+		if !strings.HasPrefix(n, "litefs.(*DB).") || n == "litefs.(*DB).PinHaltLock" || n == "litefs.(*DB).ApplyLTXNoLock" {
+			return false
+		}
+		short := strings.ToLower(n[len("litefs.(*DB)."):])
+		return strings.Contains(short, "mode") || strings.Contains(short, "haltlock") || strings.Contains(short, "relock")
+	}
+	inApply := len(InstrsDeep(c.F("litefs.(*DB).ApplyLTXNoLock"), func(in ssa.Instruction) bool {
+		fa, ok := in.(*ssa.FieldAddr)
+		if !ok {
+			return false
+		}
+		st, ok := fa.X.Type().Underlying().(*types.Pointer)
+		if !ok {
+			return false
+		}
+		str, ok := st.Elem().Underlying().(*types.Struct)
+		return ok && str.Field(fa.Field).Name() == "haltLockAndGuard"
+	})) > 0
+	key, rule := prefix+"/lock-set-follows-mode-change", "K3 After"
+	desc := "after a forwarded file was applied under a pinned halt lock the journal mode is examined again (the pinned lock set is re-established for the new mode, or given up) before the request is acknowledged"
+	why := "the lock set of WAL mode (SHARED shared + the SHM locks) does not exclude a rollback-mode connection: after a forwarded journal_mode change local connections get PENDING, SHARED and RESERVED while the halt lock is held"
+	fn := c.F(h)
+	if !c.need(key, rule, desc, fn, h) {
+		return
+	}
+	if inApply {
+		c.ok(key, rule, desc, 1)
+		return
+	}
+	ins := Instrs(fn, apply)
+	if len(ins) == 0 {
+		c.fail(key, rule, desc, why, "handlePostTx no longer calls ApplyLTXNoLock", 0)
+		return
+	}
+	s := &Search{P: p, Fn: fn, From: ins, Avoid: reexamine, Tgt: func(in ssa.Instruction) bool {
+		r, ok := in.(*ssa.Return)
+		if !ok {
+			return false
+		}
+		// the acknowledging exit: a return not preceded in its block by the Error helper
+		for _, x := range r.Block().Instrs {
+			if p.PlainCalls("http.Error")(x) {
+				return false
+			}
+		}
+		return true
+	}}
+	if f := s.Run(); f != nil {
+		c.fail(key, rule, desc, why, "the request is acknowledged at "+c.where(f.Instr)+" without the mode being examined after the apply at "+c.where(ins[0]), len(ins))
+		return
+	}
+	c.ok(key, rule, desc, len(ins))
 }
